@@ -532,6 +532,9 @@ impl ModelV1 {
                         } else {
                             return self.unspec("iterator key after exhaustion is not documented");
                         };
+                        if offset as usize > key.len() {
+                            self.meter.edges.push(if offset == u32::MAX { "edge.v1.iterator_key_read.offset_u32max" } else { "edge.v1.iterator_key_read.offset_gt_size" });
+                        }
                         let o = (offset as usize).min(key.len());
                         let n = (key.len() - o).min(length as usize);
                         mem[r.start..r.start + n].copy_from_slice(&key[o..o + n]);
@@ -550,6 +553,9 @@ impl ModelV1 {
                     Some(hm) if hm.unspecified => self.unspec("handle to an entry overwritten by create_entry"),
                     Some(hm) => {
                         let v = &self.contents[&hm.key];
+                        if offset as usize > v.len() {
+                            self.meter.edges.push(if offset == u32::MAX { "edge.v1.entry_read.offset_u32max" } else { "edge.v1.entry_read.offset_gt_size" });
+                        }
                         let o = (offset as usize).min(v.len());
                         let n = (v.len() - o).min(length as usize);
                         mem[r.start..r.start + n].copy_from_slice(&v[o..o + n]);
@@ -577,6 +583,7 @@ impl ModelV1 {
                         }
                         let off = offset as usize;
                         if off > cur {
+                            self.meter.edges.push(if offset == u32::MAX { "edge.v1.entry_write.offset_u32max" } else { "edge.v1.entry_write.offset_gt_size" });
                             return Ok(Some(V::I32(0)));
                         }
                         let end = (off + length as usize).min(MAX_ENTRY_SIZE);
@@ -786,7 +793,7 @@ impl ModelV1 {
                 let r = range(&mut self.meter, mem, start, 32)?;
                 IntM::QueryAccountKeys { address: addr32(mem, r.start) }
             }
-            7 | 8 if self.support_inspect => {
+            7 | 8 if self.support_inspect || (tag == 8 && brk("gate8") && self.support_queries) => {
                 if length != 16 {
                     return Err(trap("payload must be 16 bytes"));
                 }
